@@ -2,6 +2,7 @@
 C18 (SocketMux / FifoPipe specs, TLC validation of traces recorded from a real SocketServer/SocketClient and real named pipes)."""
 from __future__ import annotations
 
+import collections
 import json
 import random
 
@@ -228,7 +229,7 @@ def transport_conformance(ck, name, scenarios):
     pipe = [t for t in traces if t['kind'] == 'pipe']
 
     def sig_sock(t, v):
-        return {'transport': 'socket', 'failed': tlc_failed(v)}
+        return {'transport': 'socket', 'failed': tlc_failed(v), 'stall': (t['sc'].get('stall') or {}).get('kind', 'none')}
 
     ck.validate(name + ' / socket', 'SocketMuxTrace', SM_TRACE_CFG, sock, sig_of=sig_sock, chunk=60)
     ck.validate(name + ' / pipe', 'FifoPipeTrace', FP_TRACE_CFG, pipe,
@@ -321,12 +322,20 @@ def c18(ck, replay=None):
     # L3: the real transports
     scs = SB.gen_socket_scenarios(rnd, 400 if thorough else 64, max_r=6, random_payload=thorough)
     scs += SB.gen_pipe_scenarios(rnd, 120 if thorough else 24)
+    # multi-MB records in flight (both directions) while the server's or the client's event loop stands still for 0.3 s
+    scs += SB.gen_stall_scenarios(rnd, 5 if thorough else 1)
     rnd.shuffle(scs)
     scs.append({'kind': 'pipe_exit', 'n': 2, 'wait': 6})
     traces = transport_conformance(ck, 'real SocketServer/SocketClient over a unix socket; real named pipes between two processes', scs)
     if big is not None:
         big.result()
     bigex.shutdown()
+    stalls = [t for t in traces if t['kind'] == 'socket' and t['sc'].get('stall')]
+    fired = collections.Counter(t['sc']['stall']['kind'] for t in stalls if t.get('stall_fired'))
+    ck.notes.append(f'stall scenarios (a loop blocked 0.3 s while a 3 MiB record is half way): {len(stalls)} run, stall injected: '
+                    f'{dict(fired)}')
+    if stalls and len(fired) < 4:
+        raise Machinery(f'C18: stall not injected for every kind: {dict(fired)}')
     n_re = sum(1 for t in traces if t['kind'] == 'socket' and reordered(t))
     ck.notes.append(f'{n_re} socket traces in which responses were due out of request order on some connection')
     if n_re == 0:
